@@ -1,5 +1,6 @@
 """C13 - line wrapping never alters code and respects Fortran's line limit."""
 import ast
+import re
 
 from sa import pyflow
 from sa.loader import AnalysisError, enclosing_function
@@ -214,6 +215,10 @@ def rule_r2(repo, run):
                   "the \\r branch must remove exactly the first character", um.loc(parent_if))
 
 
+def _short(t):
+    return re.sub(r"\s+", " ", t)[:60]
+
+
 def rule_r3_r4(repo, run):
     R3 = run.rule("C13.R3", "conservation on the paths of the emission loop")
     R4 = run.rule("C13.R4", "every broken line carries the continuation marker")
@@ -285,6 +290,17 @@ def rule_r3_r4(repo, run):
             run.check(R3, "util.WrapperMixin.write_continue.%s" % node.func.attr,
                       node.func.attr == "lstrip" and any("dump" in t for t in tests),
                       "whitespace is stripped from a part outside the line-break branch (%s)" % tests, um.loc(node))
+    # the only change ever made to a part is dropping the blanks that would start a continuation line
+    for node in ast.walk(emit):
+        if isinstance(node, (ast.Assign, ast.AugAssign)):
+            tg = node.targets if isinstance(node, ast.Assign) else [node.target]
+            if any(pyflow.is_name(t, part) for t in tg):
+                v = node.value
+                ok = isinstance(node, ast.Assign) and isinstance(v, ast.Call) and isinstance(v.func, ast.Attribute) \
+                    and v.func.attr == "lstrip" and pyflow.is_name(v.func.value, part) and not v.args
+                run.check(R3, "util.WrapperMixin.write_continue.part-altered:%s" % _short(um.seg(node)), ok,
+                          "the text of a part is changed by `%s`; only `%s = %s.lstrip()` after a break keeps every "
+                          "non-blank character" % (um.seg(node), part, part), um.loc(node))
     # cont attributes
     for mname, cname, want in (("wrapf", "Wrapf", " &"), ("wrapc", "Wrapc", ""), ("wrapp", "Wrapp", ""),
                                ("wrapl", "Wrapl", "")):
@@ -324,6 +340,18 @@ def rule_r5(repo, run):
         run.check(R, "F_line_length+cont<=132", vals["F_line_length"] + len(cont) <= 132,
                   "default F_line_length %d plus continuation marker %r exceeds 132 columns"
                   % (vals["F_line_length"], cont), am.loc(f))
+    # each emitter takes its limit from the option of its own language family
+    for mname, cname, want in (("wrapf", "Wrapf", "F_line_length"), ("wrapc", "Wrapc", "C_line_length"),
+                               ("wrapp", "Wrapp", "C_line_length"), ("wrapl", "Wrapl", "C_line_length")):
+        m = repo.module(mname)
+        ini = m.func(cname + ".__init__")
+        src = [n.value for n in ast.walk(ini) if isinstance(n, ast.Assign)
+               and any((pyflow.dotted(t) or "") == "self.linelen" for t in n.targets)]
+        opts = sorted(set(x.attr for v in src for x in ast.walk(v) if isinstance(x, ast.Attribute)
+                          and x.attr.endswith("_line_length")))
+        run.check(R, "%s.%s.linelen" % (mname, cname), len(src) == 1 and opts == [want],
+                  "%s.linelen must be read from options.%s (found %s)" % (cname, want, [m.seg(v) for v in src]),
+                  m.loc(ini), sample=dict(emitter=cname, option=opts))
     um = repo.module("util")
     wc = um.func("WrapperMixin.write_continue")
     cmps = [n for n in ast.walk(wc) if isinstance(n, ast.Compare) and isinstance(n.ops[0], ast.Gt)
